@@ -64,7 +64,7 @@ def _row(fmt: str, k: int, model: int, chain: str, het: bool = False) -> Dict[st
 
 
 # (tag, [(model, chain)] per row)
-TABLES: List[Tuple[str, List[Tuple[int, str]]]] = [
+TABLES: List[Tuple[Any, ...]] = [
     ("one model, one chain", [(1, "A"), (1, "A"), (1, "A")]),
     ("one model, chains A and B", [(1, "A"), (1, "A"), (1, "B"), (1, "B")]),
     ("two models of the single chain A", [(1, "A"), (1, "A"), (2, "A"), (2, "A")]),
@@ -76,6 +76,8 @@ TABLES: List[Tuple[str, List[Tuple[int, str]]]] = [
     ("hetero atoms of chain A listed after chain B", [(1, "A"), (1, "A"), (1, "B"), (1, "A")]),
     ("model 2 listed before model 1", [(2, "A"), (2, "A"), (1, "A"), (1, "A")]),
     ("lower-case chain before upper-case chain", [(1, "b"), (1, "B")]),
+    # no field of the rows is in ascending order (serials, residue numbers, coordinates, names): sorting by any of them permutes the rows
+    ("one chain whose atoms are listed in no particular order of serial / number / coordinate", [(1, "A"), (1, "A"), (1, "A"), (1, "A")], [2, 0, 3, 1]),
 ]
 
 
@@ -174,10 +176,11 @@ def check_write_pdb_eval(chk) -> bool:
     n_tables = n_ter = n_atoms = 0
     try:
         for fmt in ("PDB", "mmCIF"):
-            for tag, spec_rows in TABLES:
-                pdb_rows = [_row("PDB", k, m_, c) for k, (m_, c) in enumerate(spec_rows)]
-                rows = [_row(fmt, k, m_, c, het=(k % 4 == 3)) for k, (m_, c) in enumerate(spec_rows)]
-                for k, r in enumerate(pdb_rows):
+            for tag, spec_rows, *perm in TABLES:
+                ks = perm[0] if perm else list(range(len(spec_rows)))  # which representative row stands at each position
+                pdb_rows = [_row("PDB", k, m_, c) for k, (m_, c) in zip(ks, spec_rows)]
+                rows = [_row(fmt, k, m_, c, het=(k % 4 == 3)) for k, (m_, c) in zip(ks, spec_rows)]
+                for k, r in zip(ks, pdb_rows):
                     r["record_type"] = "HETATM" if k % 4 == 3 else "ATOM"
                 try:
                     lines = run_write_pdb(call, fmt, rows)
@@ -250,7 +253,7 @@ def check_write_pdb_eval(chk) -> bool:
                 continue
             seen.add(key)
             chk.violation("record-order", site, f"{where}: {what}", K(wp, "record-order"), found=what)
-        for tag, _ in TABLES:
+        for tag, *_ in TABLES:
             if tag not in failed_tables:
                 chk.ok("record-order", site, f"evaluated ({tag}; PDB and mmCIF rows): MODEL opens every model, TER closes every chain (also the last chain of a model, before ENDMDL), ENDMDL closes every model, END ends the file")
         if ter_bad:
